@@ -22,7 +22,7 @@ func propC06() *Property {
 			{ID: "R06.2", Floor: 2, Text: "server, first read flagged as duplicate: stream readOneSegment has no feasible nil-error return; packet readOneSegment returns no segment before the next ReadFrom", Run: r06_2},
 			{ID: "R06.3", Floor: 3, Text: "the failure branch after readOneSegment (stream) and the packet read loop call nothing that may write to the connection", Run: r05_5},
 			{ID: "R06.4", Floor: 2, Text: "replay.NewCache(capacity, interval): capacity > 0 and interval >= (timestamp margin + 1) minutes", Run: r06_4},
-			{ID: "R06.5", Floor: 4, Text: "every IsDuplicate call passes buffer[:cipher.DefaultOverhead] of a buffer filled from the network in the same function", Run: r06_5},
+			{ID: "R06.5", Floor: 3, Text: "every IsDuplicate call passes buffer[:cipher.DefaultOverhead] of a buffer filled from the network in the same function (or, for a record-and-decrypt helper, by each of its callers)", Run: r06_5},
 			{ID: "R06.8", Floor: 1, Text: "the replay signature is a hash of the whole item", Run: r06_8},
 			{ID: "R06.7", Floor: 1, Text: "every demotion of the current generation to previous restarts the expiry clock before the method returns", Run: r06_7},
 			{ID: "R06.6", Floor: 4, Text: "ReplayCache: every access to a non-constant field in a method happens with mu held; fields read outside the lock are never stored after NewCache and are not reference-typed", Run: r06_6},
@@ -468,7 +468,9 @@ func r06_5(c *RC) {
 			// buffer filled from the network in this function: MakeSlice passed to ReadFull / ReadFrom, or result of decodeLowEntropyEncryptedPayload on such
 			root := sliceRoot(di.Buf)
 			fromNet := false
-			for _, l := range Leaves(root, nil) {
+			// (a helper that records and decrypts gets the buffer as a
+			// parameter: judged by what its callers pass)
+			for _, l := range LeavesIP(p, fn, root, 0) {
 				if ex, ok := l.(*ssa.Extract); ok {
 					if cl, ok := ex.Tuple.(*ssa.Call); ok && calleeName(cl) == "decodeLowEntropyEncryptedPayload" {
 						fromNet = true
